@@ -175,4 +175,60 @@ theorem pull_succ (f : Nat) (p : Parser) :
       simp -zeta only [hm', if_false]
       exact chop_eq f p
 
+/-! ### one round as a function: `(q, none)` = go round again with `q`, `(q, some r)` = return -/
+
+def procRes (q : Parser × PRes) : Parser × Option PullRes :=
+  match q.2 with
+  | .none => (q.1, none)
+  | .eop => (q.1, some .eop)
+  | .ve => (q.1, some (.ve q.1.comp.cur))
+
+def chopR (p : Parser) : Parser × Option PullRes :=
+  match eolR (p.buf.drop p.bix) with
+  | none => ((stashRest p 0).1, some .need)
+  | some e =>
+    if e ≥ (p.buf.drop p.bix).length then ((stashRest p 1).1, some .need)
+    else
+      let q := takeLine p e
+      if q.stash.length ≠ 0 then procRes (doProc q) else (q, none)
+
+def round (p : Parser) : Parser × Option PullRes :=
+  if Marked p ∧ ¬ Fold (bpOf p) then procRes (doProc { p with sentinel := 0 }) else chopR (preChop p)
+
+def cont (k : Parser → Parser × PullRes) (x : Parser × Option PullRes) : Parser × PullRes :=
+  match x.2 with
+  | none => k x.1
+  | some r => (x.1, r)
+
+theorem afterProc_eq (k : Parser → Parser × PullRes) (q : Parser × PRes) :
+    afterProc k q = cont k (procRes q) := by
+  unfold afterProc cont procRes
+  rcases q with ⟨q, r⟩
+  cases r <;> rfl
+
+theorem stashRest_snd (p : Parser) (s : Byte) : (stashRest p s).2 = .need := by
+  unfold stashRest
+  dsimp only
+  split
+  · rfl
+  · split <;> rfl
+
+theorem chop_eq_cont (k : Parser → Parser × PullRes) (p : Parser) : chop k p = cont k (chopR p) := by
+  unfold chop chopR
+  split
+  · unfold cont; dsimp only; rw [← stashRest_snd p 0]
+  · split
+    · unfold cont; dsimp only; rw [← stashRest_snd p 1]
+    · dsimp only
+      split
+      · exact afterProc_eq _ _
+      · rfl
+
+theorem pull_round (f : Nat) (p : Parser) : pull (f+1) p = cont (pull f) (round p) := by
+  rw [pull_succ]
+  unfold round
+  split
+  · exact afterProc_eq _ _
+  · exact chop_eq_cont _ _
+
 end Echse.Ical
